@@ -38,7 +38,7 @@ def run(ctx):
         scs = scs[ctx.seed % 2::2] + scs[-20:]
     p_c07.run_family(ctx, "lk", scs)
     import p_c18
-    p_c18.run_http(ctx, only_leaks=True)
+    p_c18.run_http(ctx, only=p_c18.LEAK_CLAUSES | {"attemptCancelled"})
     return vlib.finish(ctx, rule="goroutine-starting compositions (hedge, timeout, async, retry delays, bulkhead waits) x success / failure / rejection / timeout / context cancellation at several instants / async cancel, "
                        "functions that cooperate or keep running; after the last callback returned and a grace period the bubble's goroutines with a failsafe-go frame are counted and must match the model's live threads; "
                        "HTTP/gRPC: context mergers and response bodies (see C18)")
